@@ -77,6 +77,26 @@ def search(ctx):
         stats["evaluations"] += 1
         return d.action, d.reason
 
+    # exhaustive small case: every rule list of length <= 3 over six patterns x three decisions, against five commands:
+    # the answer of match_command is the decision of the last rule that matches on its own (deterministic)
+    import itertools
+
+    pats = [("git push", False), ("git push *", False), ("git *", False), ("git push", True), ("gi*", False), ("rm", False)]
+    rules = [C.Rule(dec, pat, exact=ex) for pat, ex in pats for dec in ("allow", "ask", "deny")]
+    cmds5 = [["git", "push"], ["git", "push", "origin"], ["git", "status"], ["rm", "x"], ["git"]]
+    alone = {(i, j): C.match_command(C.SimpleCommand(words=ws), C.Config(rules=[rule]), cwd) is not None for i, rule in enumerate(rules) for j, ws in enumerate(cmds5)}
+    for k in (1, 2, 3):
+        for idx in itertools.product(range(len(rules)), repeat=k):
+            cfgk = C.Config(rules=[rules[i] for i in idx])
+            for j, ws in enumerate(cmds5):
+                m = C.match_command(C.SimpleCommand(words=ws), cfgk, cwd)
+                stats["exhaustive_lists"] += 1
+                hit = [i for i in idx if alone[(i, j)]]
+                want = rules[hit[-1]].decision if hit else None
+                got = m.decision if m is not None else None
+                if got != want and stats["exhaustive_violations"] < 3:
+                    stats["exhaustive_violations"] += 1
+                    vios.append({"input": {"command": " ".join(ws), "config": "".join("%s %s%s\n" % (rules[i].decision, rules[i].pattern, " |" if rules[i].exact else "") for i in idx), "cwd": CWD}, "observed": {"match": got}, "required": f"decision of the last rule that matches on its own == {want}", "oracle": "last-match(exhaustive lists)"})
     for _ in range(n):
         text = CC.gen_rules_text(r, k=r.randint(1, 8))
         cfg = C.parse_config(text)
